@@ -24,6 +24,11 @@ CHECKS = {
    text="For every text up to length 4 (5 thorough) over a 1/2/4-byte alphabet and every pair of cursors of either alignment in [-len-2, len+2], annotate(TextSelector) and FindText::textselection must accept exactly the valid ranges and select exactly those codepoints; likewise for every parent range and relative cursor pair through AnnotationSelector offsets and textselection() on selections; reported offsets must be well-formed and re-resolve to the same range in all four modes; random nesting to depth 3 and extreme cursors. Exhaustive within these bounds.",
    note="Trusted: resolve_off() in harness/src/model.rs (C04 definition from the property statement). JSON/CSV serialised offsets are covered by C05/C15.",
    ref="5/C04"),
+ "C05": dict(
+   technique="runtime monitoring: round-trip differential on stores reached by seeded histories - canonical observation (incl. every reverse lookup) of original vs reloaded store, byte identity of the second write - under pretty/compact inline output and stand-off (@include) resources and datasets",
+   text="Final states of seeded histories with removals (gaps), id-less annotations/data, all selector kinds and value types and hostile Unicode ids are written to STAM JSON and read back under four output variants; the reloaded store must be observationally identical (items, ids or their absence, order, selector kinds, referenced items, ranges and alignment, typed values, reverse lookups) and writing it again must reproduce the first output (all files for stand-off variants). Held on the stores observed.",
+   note="Trusted: obs.rs canonical observation; orphan text selections (used by no annotation) are not part of the model and are ignored; sub-stores are not yet exercised by this check.",
+   ref="5/C05"),
  "C10": dict(
    technique="runtime monitoring: exactly-once oracle over the event log (shadow model predicts which data handle every request must map to), dedup invariants on the live sets, index-vs-scan differential for every data search route, and an independent reference implementation of the documented DataOperator semantics on a value x operator cross product",
    text="Seeded histories of data insertions through datasets, insert_data and annotations (with/without ids, repeated key/value pairs) and removals of data and keys; after every operation the returned handles are compared with the model's exactly-once prediction, the live sets are scanned for duplicate id-less (key,value) items and duplicate keys, and key.data()/find_data/test_data/data_by_value are compared with a full scan; DataValue::test is compared with a reference written from the doc comments over 25 values x ~100 operators incl. nested Not/And/Or. Held on what was observed.",
